@@ -239,3 +239,25 @@ def materialize(t):
         seed, n, shape, regime = t["bulk"]
         return bulk_tree_case(seed, n, shape=shape, regime=regime, soma_root=True)
     return t
+
+
+def swap_root(case, k):
+    """Relabel so that the root sits at position k (ids 0 and k exchanged).  Such trees are what
+    redirect_tree(sort=False) produces: node 0 is no longer the root."""
+    n = len(case["parents"])
+    k = k % n
+    if k == 0:
+        return case
+    sw = lambda v: k if v == 0 else 0 if v == k else v  # noqa
+    out = dict(case)
+    par = [None] * n
+    for i, p in enumerate(case["parents"]):
+        par[sw(i)] = -1 if p == -1 else sw(p)
+    out["parents"] = par
+    for col in ("x", "y", "z", "r", "type", "tag", "w"):
+        if col in case:
+            v = list(case[col])
+            v[0], v[k] = v[k], v[0]
+            out[col] = v
+    out["root_pos"] = k
+    return out
